@@ -306,8 +306,35 @@ static bool make_fun(Rng& r, int nv, Fun& out, bool for_inhc4) {
   GenCfg cfg; cfg.allow_vec = false; cfg.max_depth = r.range(1, 4); cfg.allow_apply = r.coin(25); cfg.allow_sqrt = r.coin(30);
   cfg.differentiable = for_inhc4 ? r.coin(60) : r.coin(40); cfg.allow_div = r.coin(70);
   ExprGen g(r, cfg);
+  if (r.coin(30)) {
+    // vector / matrix arguments (row vectors included) reached through components, sub-vectors, rows, columns and blocks;
+    // a slice node may be shared by several components (index nodes that copy their sub-domain in InHC4Revise)
+    int na = r.range(1, 2); out.args = new Array<const ExprSymbol>(na); out.nvar = 0;
+    for (int i = 0; i < na; i++) {
+      Dim d = Dim::scalar();
+      switch (r.below(5)) { case 0: break; case 1: case 2: d = Dim::row_vec(r.range(2, 4)); break; case 3: d = Dim::col_vec(r.range(2, 4)); break; default: d = Dim::matrix(r.range(2, 3), r.range(2, 3)); }
+      if (out.nvar + d.size() > 9) d = Dim::scalar();
+      const ExprSymbol& s = ExprSymbol::new_(("x" + to_string(i)).c_str(), d); out.args->set_ref(i, s); g.syms.push_back(&s); out.nvar += d.size();
+      int nsl = d.is_scalar() ? 0 : r.range(0, 2);
+      for (int k = 0; k < nsl; k++) {
+        const ExprNode* sl;
+        if (d.is_vector()) { int n = d.vec_size(); int a = r.below(n), b = r.range(a, n - 1); sl = &s[d.type() == Dim::ROW_VECTOR ? DoubleIndex::cols(d, a, b) : DoubleIndex::rows(d, a, b)]; }
+        else { int a = r.below(d.nb_rows()), b = r.range(a, d.nb_rows() - 1), c = r.below(d.nb_cols()), e = r.range(c, d.nb_cols() - 1);
+               switch (r.below(4)) { case 0: sl = &s[DoubleIndex::one_row(d, a)]; break; case 1: sl = &s[DoubleIndex::one_col(d, c)]; break; case 2: sl = &s[DoubleIndex::rows(d, a, b)]; break; default: sl = &s[DoubleIndex::submatrix(d, a, b, c, e)]; } }
+        int uses = r.range(1, 3);
+        for (int u = 0; u < uses; u++) {
+          const Dim& sd = sl->dim;
+          if (sd.is_scalar()) g.pool.push_back(sl);
+          else if (sd.is_vector()) g.pool.push_back(&(*sl)[r.below(sd.vec_size())]);
+          else { const ExprNode& row = (*sl)[r.below(sd.nb_rows())]; g.pool.push_back(&row[r.below(sd.nb_cols())]); }
+        }
+      }
+    }
+    nv = out.nvar;
+  } else {
   out.args = new Array<const ExprSymbol>(nv); out.nvar = nv;
   for (int i = 0; i < nv; i++) { const ExprSymbol& s = ExprSymbol::new_(("x" + to_string(i)).c_str(), Dim::scalar()); out.args->set_ref(i, s); g.syms.push_back(&s); }
+  }
   if (cfg.allow_apply) { int nf = r.range(1, 2); for (int k = 0; k < nf; k++) { Function* f = make_aux(r, k, cfg.allow_sqrt); g.funs.push_back(f); out.aux.push_back(f); } }
   const ExprNode& e = g.gen(1, 1, cfg.max_depth);
   out.f = new Function(*out.args, e, "f");
@@ -340,7 +367,7 @@ static void part_fun(Rng& r, long n) {
     try {
       int nv = r.range(1, 3);
       Fun F; if (!make_fun(r, nv, F, true)) { EMIT("skipfun notimplemented => 0\n"); continue; }
-      Function& f = *F.f;
+      Function& f = *F.f; nv = F.nvar;
       string dag = dump_fun(f);
       for (int k = 0; k < 4; k++) {
         Vector planted(nv); for (int i = 0; i < nv; i++) planted[i] = dyadic(r);
@@ -364,7 +391,7 @@ static void part_fun(Rng& r, long n) {
           if (seed_ok(r, f, s, y)) seed = s;
           else { IntervalVector s2(planted); if (seed_ok(r, f, s2, y)) seed = s2; }
         }
-        if (r.coin(30)) { IntervalVector other = box_around(r, planted); try { f.ibwd(Interval(-1, 1), other); } catch (...) {} }   // history
+        if (r.coin(30) && !getenv("H_INNER_NOHIST")) { IntervalVector other = box_around(r, planted); try { f.ibwd(Interval(-1, 1), other); } catch (...) {} }   // history
         IntervalVector res = box;
         if (seed.is_empty()) f.ibwd(y, res); else f.ibwd(y, res, seed);
         rm("Function::ibwd");
